@@ -21,7 +21,8 @@ RULE = ("any_iter: item lists of length 0..6 x {plain, awaitable} outer x {list,
         "and not before, for every number of steps; apply: every split of <= 5 arguments into positional/keyword, "
         "result == func(*awaited, **awaited), awaits in positional-then-keyword order; sync: def / async def / "
         "partial / callable object returning awaitable / returning plain value: same result or exception, coroutine "
-        "functions returned unchanged (identity). non-trivial = non-empty list or >= 1 argument; distinct = shape")
+        "functions returned unchanged (identity); ALL sequences of 1..3 calls through one sync() wrapper whose callable "
+        "returns a plain value, a coroutine, a custom awaitable or raises, differently per call. non-trivial = non-empty list or >= 1 argument; distinct = shape")
 ASSUMPTIONS = ["direct specification oracle (no stdlib twin exists for these helpers)"]
 EXHAUSTIVE = {"quick": True, "thorough": True}
 MAX_SHARDS = 8
@@ -53,6 +54,13 @@ def cases(tier, seed, shard, nshards):
                     idx += 1
                     if idx % nshards == shard:
                         yield {"kind": "apply", "n": n, "npos": npos, "susp": susp, "fail": fail}
+    shapes = ["plain", "coro", "awaitable", "raise"]
+    for n in (1, 2, 3):
+        for seq in itertools.product(shapes, repeat=n):
+            for wrap in ("function", "partial", "callobj", "lambda"):
+                idx += 1
+                if idx % nshards == shard:
+                    yield {"kind": "sync_seq", "seq": list(seq), "wrap": wrap, "susp": idx % 2}
     for flav in ("def", "async_def", "partial", "callobj", "lambda_awaitable", "def_raises", "async_raises",
                  "callobj_plain", "notcallable", "awaitable_value"):
         for susp in (0, 1):
@@ -322,12 +330,73 @@ async def _await(aw):
     return await aw
 
 
+def run_sync_seq(case, stats):
+    """One sync() wrapper called several times; the callable's return shape varies from call to call."""
+    CTX.reset()
+    seq, susp = case["seq"], case["susp"]
+    state = {"i": 0}
+    boom = [KeyError(f"boom{i}") for i in range(len(seq))]
+    results = [Item(i, ("res", i)) for i in range(len(seq))]
+
+    class Aw:
+        def __init__(self, value):
+            self.value = value
+
+        def __await__(self):
+            if susp:
+                yield from Suspend("awaitable", 1).__await__()
+            return self.value
+
+    async def coro(value):
+        if susp:
+            await Suspend("coro", 1)
+        return value
+
+    def fn(*args, **kwargs):
+        i = state["i"]
+        state["i"] += 1
+        shape = seq[i]
+        if shape == "plain":
+            return results[i]
+        if shape == "coro":
+            return coro(results[i])
+        if shape == "awaitable":
+            return Aw(results[i])
+        raise boom[i]
+
+    class CallObj:
+        def __call__(self, *a, **k):
+            return fn(*a, **k)
+
+    target = {"function": fn, "partial": functools.partial(fn, 1), "callobj": CallObj(), "lambda": (lambda *a, **k: fn(*a, **k))}[case["wrap"]]
+    wrapped = A.sync(target)
+    viols = []
+    for i, shape in enumerate(seq):
+        try:
+            res = ("ok", drive(_await(wrapped(i))))
+        except BaseException as exc:  # noqa: BLE001
+            res = ("raise", exc)
+        if shape == "raise":
+            ok = res[0] == "raise" and res[1] is boom[i]
+        else:
+            ok = res[0] == "ok" and res[1] is results[i]
+        if not ok:
+            viols.append({"key": "sync/result-depends-on-earlier-calls",
+                          "msg": f"sync({case['wrap']}) call #{i} of return shapes {seq}: got {res!r}"[:400]})
+            break
+    if CTX.foreign:
+        viols.append({"key": "sync/foreign-suspension", "msg": CTX.foreign[0]})
+    stats["sync_sequence_runs"] += 1
+    return {"violations": viols, "nontrivial": len(set(seq)) > 1, "sig": tuple(sorted(case.items(), key=str))}
+
+
 def run_case(case, stats: Counter):
-    return {"any_iter": run_any_iter, "await_each": run_await_each, "apply": run_apply, "sync": run_sync}[case["kind"]](case, stats)
+    return {"any_iter": run_any_iter, "await_each": run_await_each, "apply": run_apply, "sync": run_sync,
+            "sync_seq": run_sync_seq}[case["kind"]](case, stats)
 
 
 def finish(stats, tier):
-    for need in ("any_iter_runs", "await_each_runs", "apply_runs", "sync_runs"):
+    for need in ("any_iter_runs", "await_each_runs", "apply_runs", "sync_runs", "sync_sequence_runs"):
         if not stats.get(need):
             return f"deciding counter {need} is zero"
     return None
